@@ -166,14 +166,29 @@ func JudgeC04(sc *Scenario, tr *Transcript) *Verdict {
 			continue
 		}
 		v := NewView(sc, tr, ri)
-		anyOverloaded := false
+		anyOverloaded, oversizeHeld := false, false
 		for s := 0; s < v.N; s++ {
 			if !v.InSync[s] {
 				continue
 			}
 			head, proc := reportedLoad(&v.Spec.Shards[s])
 			if proc >= P || (L != 0 && head >= L) {
-				anyOverloaded = true
+				// a shard that holds nothing but targets which alone exceed a limit (they grew after they were assigned)
+				// and reports no other load is over its limit because of them only: nothing can be done about that
+				// by relief, and it is no reason for a scale-up
+				sp := &v.Spec.Shards[s]
+				onlyOversize := len(sp.Held) > 0 && sp.HeadExtra == 0 && (sp.HashEqual || sp.Head2 == 0)
+				for _, h := range sp.Held {
+					if !((L != 0 && h.Series > L) || h.Total > P) {
+						onlyOversize = false
+					}
+				}
+				if onlyOversize {
+					oversizeHeld = true
+					vd.class("shard-over-its-limit-only-because-of-a-grown-oversize-target")
+				} else {
+					anyOverloaded = true
+				}
 			}
 			if len(v.New[s]) == 0 {
 				continue
@@ -242,14 +257,14 @@ func JudgeC04(sc *Scenario, tr *Transcript) *Verdict {
 			vd.NonTrivial = true
 			vd.class("oversize-unscraped")
 		}
-		if oversize > 0 && oversize == eligibleUnscraped && !anyOverloaded && !v.Spec.ScaleFail {
+		if (oversize > 0 || oversizeHeld) && oversize == eligibleUnscraped && !anyOverloaded && !v.Spec.ScaleFail {
 			lim := int32(v.N)
 			if sc.Opt.Min > lim {
 				lim = sc.Opt.Min
 			}
 			for _, r := range v.Scales {
 				if r > lim {
-					vd.add("C04/oversize-scale-up", "replica %d: only oversize targets are unplaced and no shard is overloaded, yet scale %d > max(current %d, min %d) was requested", ri, r, v.N, sc.Opt.Min)
+					vd.add("C04/oversize-scale-up", "replica %d: only oversize targets are unplaced or make their shard exceed a limit, no shard is overloaded otherwise, yet scale %d > max(current %d, min %d) was requested", ri, r, v.N, sc.Opt.Min)
 				}
 			}
 		}
